@@ -446,7 +446,15 @@ def repair(stdout, stderr, parser: ArgumentParser, args: Namespace):
         structural_predicates=structural_predicates,
         semantic_predicates=semantic_predicates,
     )
-    maybe_repaired = solver.repair(inp, fix_timeout_seconds=args.timeout)
+    try:
+        maybe_repaired = solver.repair(inp, fix_timeout_seconds=args.timeout)
+    except Exception as exc:
+        print(
+            f"isla {command}: error: An exception ({type(exc).__name__}) occurred "
+            + f"during constraint solving, message: `{exc}`",
+            file=stderr,
+        )
+        sys.exit(1)
 
     if not is_successful(maybe_repaired):
         print(
@@ -503,12 +511,20 @@ def mutate(stdout, stderr, parser: ArgumentParser, args: Namespace):
         semantic_predicates=semantic_predicates,
     )
 
-    mutated = solver.mutate(
-        inp,
-        fix_timeout_seconds=args.timeout,
-        min_mutations=args.min_mutations,
-        max_mutations=args.max_mutations,
-    )
+    try:
+        mutated = solver.mutate(
+            inp,
+            fix_timeout_seconds=args.timeout,
+            min_mutations=args.min_mutations,
+            max_mutations=args.max_mutations,
+        )
+    except Exception as exc:
+        print(
+            f"isla {command}: error: An exception ({type(exc).__name__}) occurred "
+            + f"during constraint solving, message: `{exc}`",
+            file=stderr,
+        )
+        sys.exit(1)
 
     if args.output_file:
         assert_path_is_dir(
